@@ -181,7 +181,7 @@ func (P *Program) paramArgs(p *ssa.Parameter) []ssa.Value {
 	if fn == nil {
 		return nil
 	}
-	if fn.Parent() != nil && len(P.Callers(fn)) == 0 {
+	if closureLike(fn) && len(P.Callers(fn)) == 0 {
 		return nil // callback / range-over-func body: parameters come from the library
 	}
 	idx := -1
@@ -212,6 +212,25 @@ func (P *Program) paramArgs(p *ssa.Parameter) []ssa.Value {
 func (P *Program) closureSite(fn *ssa.Function) *ssa.MakeClosure {
 	par := fn.Parent()
 	if par == nil {
+		if !isBoundWrapper(fn) {
+			return nil
+		}
+		// a method value `x.m`: go/ssa makes a parentless wrapper closure; find the one place it is created
+		if P.boundSites == nil {
+			P.boundSites = map[*ssa.Function][]*ssa.MakeClosure{}
+			for _, f := range P.ModFuncs {
+				allInstrs(f, func(b *ssa.BasicBlock, ins ssa.Instruction) {
+					if m, ok := ins.(*ssa.MakeClosure); ok {
+						if g, ok := m.Fn.(*ssa.Function); ok && isBoundWrapper(g) {
+							P.boundSites[g] = append(P.boundSites[g], m)
+						}
+					}
+				})
+			}
+		}
+		if sites := P.boundSites[fn]; len(sites) == 1 {
+			return sites[0]
+		}
 		return nil
 	}
 	var mc *ssa.MakeClosure
@@ -221,6 +240,16 @@ func (P *Program) closureSite(fn *ssa.Function) *ssa.MakeClosure {
 		}
 	})
 	return mc
+}
+
+// isBoundWrapper: the closure go/ssa synthesises for a method value (receiver captured as free variable).
+func isBoundWrapper(fn *ssa.Function) bool {
+	return fn != nil && strings.HasPrefix(fn.Synthetic, "bound method wrapper")
+}
+
+// closureLike: a function literal or a method-value wrapper (created at a MakeClosure, may capture variables).
+func closureLike(fn *ssa.Function) bool {
+	return fn != nil && (fn.Parent() != nil || isBoundWrapper(fn))
 }
 
 func (P *Program) freeVarBinding(fv *ssa.FreeVar) ssa.Value {
@@ -562,7 +591,7 @@ func (P *Program) termDesc(v ssa.Value, deep bool) string {
 				idx = i
 			}
 		}
-		if fn.Parent() != nil {
+		if closureLike(fn) {
 			// callback / range-over-func body parameter: describe by the call the closure is passed to
 			if mc := P.closureSite(fn); mc != nil {
 				if call, argi := closurePassedTo(mc); call != nil {
